@@ -71,12 +71,13 @@ type S struct {
 	// AuthCheck refuses every attach whose aname starts with "deny".
 	FlushMode int
 	conns     map[string]*go9p.Conn
+	inside    map[string]int // requests handed to the implementation and not yet answered
 	// OnFlush, if set, is called from Flush (after logging).
 	Default Behav
 }
 
 func New() *S {
-	return &S{behav: map[string]Behav{}, gates: map[string]chan struct{}{}, entered: map[string]chan struct{}{}, conns: map[string]*go9p.Conn{}}
+	return &S{behav: map[string]Behav{}, gates: map[string]chan struct{}{}, entered: map[string]chan struct{}{}, conns: map[string]*go9p.Conn{}, inside: map[string]int{}}
 }
 
 // Key identifies a request by its content; the harness makes keys unique.
@@ -368,6 +369,7 @@ func (s *S) op(name string, req *go9p.SrvReq) {
 	}
 	s.add(Entry{Kind: "enter", Op: name, Conn: req.Conn.Id, Key: key, Tag: req.Tc.Tag, Fid: m.Fid, Inc: inc, NewInc: ninc, AInc: ainc, User: un, Uid: uid, Msg: m, Dotu: dotu})
 	s.mu.Lock()
+	s.inside[key]++
 	b, ok := s.behav[key]
 	if !ok {
 		b = s.Default
@@ -398,6 +400,9 @@ func (s *S) op(name string, req *go9p.SrvReq) {
 	}
 	a := ExpectedAnswer(m, b, ftype)
 	do := func() {
+		s.mu.Lock()
+		s.inside[key]--
+		s.mu.Unlock()
 		s.add(Entry{Kind: "answer", Op: name, Conn: req.Conn.Id, Key: key, Tag: req.Tc.Tag, Answer: a, Msg: m, Dotu: dotu})
 		s.respond(req, a)
 		if b.Dup {
@@ -466,8 +471,15 @@ func (o OpsAuthFlush) Flush(r *go9p.SrvReq) { o.S.flush(r) }
 
 func (s *S) flush(r *go9p.SrvReq) {
 	m := ref9p.Canon(conv.FromFcall(r.Tc), r.Conn.Dotu)
-	s.add(Entry{Kind: "flush", Conn: r.Conn.Id, Key: Key(m), Tag: r.Tc.Tag})
-	if s.FlushMode == FlushCancel && r.Tc.Type != ref9p.Tflush {
+	key := Key(m)
+	s.add(Entry{Kind: "flush", Conn: r.Conn.Id, Key: key, Tag: r.Tc.Tag})
+	// A real implementation can only cancel a request it has been handed and
+	// has not answered yet; for anything else it leaves the flush to the
+	// framework (the Tflush is then answered when the request completes).
+	s.mu.Lock()
+	inside := s.inside[key] > 0
+	s.mu.Unlock()
+	if s.FlushMode == FlushCancel && r.Tc.Type != ref9p.Tflush && inside {
 		r.Flush()
 	}
 }
